@@ -181,6 +181,14 @@ def buckets (P : List Nat) (step : Nat) : List (List Nat) :=
 
 /-- `_divisions` on KNOWN source divisions (as fixed by D5):
     `[divisions[b[0]] for b in buckets] + [divisions[buckets[-1][-1] + 1]]`; `none` = IndexError -/
+def bucketHeads (full : List Int) : List (List Nat) → Option (List Int)
+  | [] => some []
+  | b :: t => match b.head?, bucketHeads full t with
+      | some h, some r => (match full[h]? with
+          | some v => some (v :: r)
+          | none => none)
+      | _, _ => none
+
 def fusedDivisions (full : List Int) (P : List Nat) (step : Nat) : Option (List Int) :=
   let bs := buckets P step
   match bs.getLast? with
@@ -189,9 +197,7 @@ def fusedDivisions (full : List Int) (P : List Nat) (step : Nat) : Option (List 
     match lb.getLast? with
     | none => none
     | some last =>
-      match bs.mapM (fun b => match b.head? with
-          | some h => full[h]?
-          | none => none), full[last + 1]? with
+      match bucketHeads full bs, full[last + 1]? with
       | some los, some hi => some (los ++ [hi])
       | _, _ => none
 
